@@ -156,6 +156,21 @@ def run(rep, tier, rng):
                           {"kind": "search", "family": "asmseq", "case": case, "program_index": 2, "shared": sh[:300], "fresh": fr[:300],
                            "class": "history-call-by-root", "fresh_class": fr.split()[1] if fr.startswith("ERR") else fr.split()[0]})
             found = True
+        # whatever instance accepts a call by root, the program it assembles must be self-contained
+        same = "lib a %s | prog %s | prog %s" % (hx("export.f\n push.77 drop\nend\nexport.g\n push.5 drop exec.f\nend\n"),
+                                                 hx("use.a::m0\nbegin exec.m0::f call.%s end" % hexroot),
+                                                 hx("use.a::m0\nbegin procref.m0::f dropw call.%s call.m0::g end" % hexroot))
+        outs_r = out + common.run_impl("asmseq", [same], tag="c11h3")[0].split(" || ")
+        for k, o3 in enumerate(outs_r):
+            for which, o in zip(("shared", "fresh", "fresh-reversed"), o3.split(" ;; ")):
+                dist["call-by-root:%s" % o.split()[0]] += 1
+                if o.startswith("OK") and ("closed=1" not in o or "run=ok" not in o):
+                    rep.violation("a program with `call.<mast root>` assembles (%s instance) but is not self-contained: %s" % (which, o[:120]),
+                                  {"kind": "search", "family": "asmseq", "case": case if k < 3 else same, "program_index": k % 3, "instance": which, "impl": o[:300]})
+                    found = True
+                if o.startswith("PANIC"):
+                    rep.violation("assembling a program with `call.<mast root>` panics", {"kind": "search", "family": "asmseq", "case": case if k < 3 else same, "impl": o[:300]})
+                    found = True
 
     # ---- invalid programs are rejected with an error --------------------------------------------------
     inv = [(why, s) for why, l in INVALID for s in l]
